@@ -96,6 +96,7 @@ type Regex struct {
 	engine  *meta.Engine
 	pattern string
 	longest bool // if true, prefer leftmost-longest match (POSIX semantics)
+	posix   bool // compiled by CompilePOSIX (POSIX ERE syntax)
 }
 
 // Regexp is an alias for Regex to provide drop-in compatibility with stdlib regexp.
@@ -170,6 +171,7 @@ func CompilePOSIX(pattern string) (*Regex, error) {
 	re := &Regex{
 		engine:  engine,
 		pattern: pattern,
+		posix:   true,
 	}
 	re.Longest()
 	return re, nil
@@ -1652,10 +1654,16 @@ func (r *Regex) AllString(s string) iter.Seq[string] {
 // Copy may still be appropriate if the reason for its use is to make
 // two copies with different Longest settings.
 func (r *Regex) Copy() *Regex {
-	// Create a new Regex with the same pattern
-	// Note: This re-compiles the pattern, which is slightly slower than
-	// sharing the internal engine, but ensures complete independence.
-	re, err := Compile(r.pattern)
+	// Recompile (complete independence from the original) with the syntax
+	// the original was compiled with: a pattern accepted by CompilePOSIX need
+	// not be valid, or mean the same, in Perl syntax.
+	var re *Regex
+	var err error
+	if r.posix {
+		re, err = CompilePOSIX(r.pattern)
+	} else {
+		re, err = Compile(r.pattern)
+	}
 	if err != nil {
 		// This should never happen since the pattern was already compiled
 		return nil
